@@ -138,14 +138,17 @@ Lemma bang_ALL_not_nine : ~ In "!ALL" nine.
 Proof. simpl. intuition discriminate. Qed.
 
 (** the list computed by createMethodMatcher contains exactly the denoted methods *)
-Lemma created_methods ms l :
-  create_method_matcher ms = Ok l -> forall m, mem m l = spec_listed ms m.
+Lemma created_methods fx4 ms l :
+  create_method_matcher fx4 ms = Ok l -> forall m, mem m l = spec_listed ms m.
 Proof.
   unfold create_method_matcher. destruct (is_nil ms) eqn:En.
   - intro H. inversion H; subst. apply is_nil_true in En. subst ms.
     intro m. unfold spec_listed. simpl. rewrite andb_false_r. reflexivity.
   - set (ms2 := compact (sort_strings (expand_all ms))).
-    destruct (mem "" ms2); [discriminate|]. intro H. inversion H; subst l. clear H.
+    destruct (mem "" ms2); [discriminate|].
+    set (res := subtract (subtract ms2 (filter has_bang ms2)) (map trim_bang (filter has_bang ms2))).
+    destruct (fx4 && is_nil res); [discriminate|].
+    intro H. inversion H; subst l. clear H. unfold res. clear res.
     intro m. apply bool_eq_iff.
     assert (Hin : forall y, In y ms2 <-> In y (expand_all ms)).
     { intro y. unfold ms2. rewrite In_compact, In_sort. tauto. }
@@ -166,38 +169,55 @@ Proof.
     + destruct (has_bang m) eqn:Eb; intuition congruence.
 Qed.
 
-(** C03-F4: a non-empty list that denotes no method at all (only exclusions, or
-    ALL with every method excluded) *)
-Definition guard_F4 (ms : list string) : bool :=
-  negb (is_nil ms) && match create_method_matcher ms with Ok [] => true | _ => false end.
+(** C03-F4 (without the repair fixes/C03-F4.diff): a non-empty list that denotes no method at
+    all (only exclusions, or ALL with every method excluded) *)
+Definition guard_F4 (fx4 : bool) (ms : list string) : bool :=
+  negb fx4 && negb (is_nil ms) && match create_method_matcher false ms with Ok [] => true | _ => false end.
 
-Lemma method_list_semantics ms l q :
-  create_method_matcher ms = Ok l -> guard_F4 ms = false ->
+(** the two variants differ only in rejecting the lists under the guard *)
+Lemma create_method_fx4 ms l :
+  create_method_matcher true ms = Ok l -> create_method_matcher false ms = Ok l /\ (ms = [] \/ l <> []).
+Proof.
+  unfold create_method_matcher. destruct (is_nil ms) eqn:En.
+  - intro H. split; [exact H|]. left. apply is_nil_true. exact En.
+  - destruct (mem "" (compact (sort_strings (expand_all ms)))); [discriminate|].
+    cbn [andb].
+    match goal with |- context [is_nil (subtract ?a ?b)] => destruct (is_nil (subtract a b)) eqn:E end; [discriminate|].
+    intro H. split; [exact H|]. right. inversion H; subst l. apply is_nil_false. exact E.
+Qed.
+
+Lemma method_list_semantics fx4 ms l q :
+  create_method_matcher fx4 ms = Ok l -> guard_F4 fx4 ms = false ->
   method_match l q = spec_method ms (q_method q).
 Proof.
-  intros Hc Hg. unfold method_match. rewrite spec_method_unfold, <- (created_methods _ _ Hc).
-  unfold guard_F4 in Hg. rewrite Hc in Hg.
-  destruct ms as [|m0 ms]; simpl in *.
+  intros Hc Hg. unfold method_match. rewrite spec_method_unfold, <- (created_methods _ _ _ Hc).
+  unfold guard_F4 in Hg.
+  assert (Hne : ms = [] \/ l <> []).
+  { destruct fx4.
+    - apply (create_method_fx4 _ _ Hc).
+    - rewrite Hc in Hg. cbn [negb andb] in Hg. destruct ms; [left; reflexivity|].
+      right. destruct l; [discriminate | discriminate]. }
+  destruct ms as [|m0 ms'].
   - unfold create_method_matcher in Hc. simpl in Hc. inversion Hc. reflexivity.
-  - destruct l; [discriminate | reflexivity].
+  - destruct Hne as [Hne | Hne]; [discriminate|]. destruct l; [congruence | reflexivity].
 Qed.
 
 (** under the guard of C03-F4 the created matcher accepts every method although the
     list denotes none *)
 Lemma F4_behaviour ms q :
-  guard_F4 ms = true ->
-  exists l, create_method_matcher ms = Ok l /\ method_match l q = true /\
+  guard_F4 false ms = true ->
+  exists l, create_method_matcher false ms = Ok l /\ method_match l q = true /\
             spec_method ms (q_method q) = false.
 Proof.
-  unfold guard_F4. intro H. apply andb_true_iff in H as [Hn H].
-  destruct (create_method_matcher ms) as [l|] eqn:Hc; [|discriminate].
+  unfold guard_F4. cbn [negb andb]. intro H. apply andb_true_iff in H as [Hn H].
+  destruct (create_method_matcher false ms) as [l|] eqn:Hc; [|discriminate].
   destruct l; [|discriminate]. exists []. split; [reflexivity|]. split; [reflexivity|].
-  rewrite spec_method_unfold, <- (created_methods _ _ Hc). simpl.
+  rewrite spec_method_unfold, <- (created_methods _ _ _ Hc). simpl.
   apply negb_true_iff in Hn. rewrite Hn. reflexivity.
 Qed.
 
 Lemma create_method_rejected ms :
-  create_method_matcher ms = Rejected <-> In "" ms.
+  create_method_matcher false ms = Rejected <-> In "" ms.
 Proof.
   unfold create_method_matcher. destruct (is_nil ms) eqn:En.
   - apply is_nil_true in En. subst. simpl. split; [discriminate | tauto].
@@ -206,8 +226,22 @@ Proof.
       split; [intros _|reflexivity]. destruct E as [[E _]|[_ E]]; [assumption|].
       simpl in E. intuition discriminate.
     + apply mem_false in E. rewrite In_compact, In_sort, In_expand_all in E.
-      split; [discriminate|]. intro H. exfalso. apply E. left. split; [assumption|].
+      cbn [andb]. split; [discriminate|]. intro H. exfalso. apply E. left. split; [assumption|].
       intros _. discriminate.
+Qed.
+
+(** with the repair: rejected also when the list allows no method *)
+Lemma create_method_rejected_fx4 ms :
+  create_method_matcher true ms = Rejected <-> In "" ms \/ guard_F4 false ms = true.
+Proof.
+  rewrite <- create_method_rejected. unfold guard_F4, create_method_matcher. cbn [negb andb].
+  destruct (is_nil ms) eqn:En.
+  - simpl. split; [discriminate | intros [H|H]; discriminate].
+  - destruct (mem "" (compact (sort_strings (expand_all ms)))).
+    + simpl. tauto.
+    + cbn [andb negb]. destruct (subtract _ _) as [|x l]; simpl.
+      * tauto.
+      * split; [discriminate | intros [H|H]; discriminate].
 Qed.
 
 (* ------------------------------------------------------------------ scheme, hosts *)
@@ -215,15 +249,17 @@ Qed.
 Lemma scheme_semantics s q : scheme_match s q = spec_scheme s q.
 Proof. reflexivity. Qed.
 
-(** C03-F1: two or more host expressions that disagree on the request's host *)
-Definition guard_F1 (eng : engine) (hs : list tmdef) (q : request) : bool :=
+(** C03-F1 (without the repair fixes/C03-F1.diff): two or more host expressions that disagree on
+    the request's host *)
+Definition guard_F1 (fx1 : bool) (eng : engine) (hs : list tmdef) (q : request) : bool :=
+  negb fx1 &&
   existsb (fun h => tm_match eng true h (q_host q)) hs &&
   existsb (fun h => negb (tm_match eng true h (q_host q))) hs.
 
-Lemma hosts_semantics eng hs q :
-  guard_F1 eng hs q = false -> hosts_match eng hs q = spec_hosts eng hs q.
+Lemma hosts_semantics_pinned eng hs q :
+  guard_F1 false eng hs q = false -> hosts_match false eng hs q = spec_hosts eng hs q.
 Proof.
-  unfold guard_F1, hosts_match, spec_hosts.
+  unfold guard_F1, hosts_match, spec_hosts. cbn [negb andb].
   induction hs as [|h r IH]; simpl; [reflexivity|].
   destruct (tm_match eng true h (q_host q)); simpl.
   - intro H. destruct r as [|h2 r2]; [reflexivity|].
@@ -237,11 +273,24 @@ Proof.
   - rewrite andb_true_r. intro H. rewrite H. reflexivity.
 Qed.
 
+Lemma hosts_semantics_fixed eng hs q : hosts_match true eng hs q = spec_hosts eng hs q.
+Proof.
+  unfold hosts_match, spec_hosts. cbn [andb].
+  destruct hs as [|h [|h2 r]]; simpl; [reflexivity | |reflexivity].
+  rewrite andb_true_r, orb_false_r. reflexivity.
+Qed.
+
+Lemma hosts_semantics fx1 eng hs q :
+  guard_F1 fx1 eng hs q = false -> hosts_match fx1 eng hs q = spec_hosts eng hs q.
+Proof.
+  destruct fx1; [intros _; apply hosts_semantics_fixed | apply hosts_semantics_pinned].
+Qed.
+
 (** under the guard of C03-F1 the route does not match although one host expression holds *)
 Lemma F1_behaviour eng hs q :
-  guard_F1 eng hs q = true -> hosts_match eng hs q = false /\ spec_hosts eng hs q = true.
+  guard_F1 false eng hs q = true -> hosts_match false eng hs q = false /\ spec_hosts eng hs q = true.
 Proof.
-  unfold guard_F1, hosts_match, spec_hosts. intro H. apply andb_true_iff in H as [H1 H2]. split.
+  unfold guard_F1, hosts_match, spec_hosts. cbn [negb andb]. intro H. apply andb_true_iff in H as [H1 H2]. split.
   - apply existsb_exists in H2 as (x & Hx & E). apply negb_true_iff in E.
     destruct (forallb _ hs) eqn:F; [|reflexivity].
     rewrite forallb_forall in F. rewrite (F _ Hx) in E. discriminate.
@@ -758,9 +807,9 @@ Proof.
 Qed.
 
 (** what CreateRule assembles *)
-Lemma create_rule_inv r cr :
-  create_rule r = Ok cr ->
-  exists mm, create_method_matcher (rl_methods r) = Ok mm /\
+Lemma create_rule_inv fx4 r cr :
+  create_rule fx4 r = Ok cr ->
+  exists mm, create_method_matcher fx4 (rl_methods r) = Ok mm /\
     forallb tm_ok (rl_hosts r) = true /\
     forallb (fun rt => forallb (fun p => tm_ok (pp_tm p)) (rt_params rt)) (rl_routes r) = true /\
     cr_slash cr = rl_slash r /\ cr_bt cr = rl_bt r /\
@@ -768,7 +817,7 @@ Lemma create_rule_inv r cr :
                          {| cm_scheme := rl_scheme r; cm_methods := mm; cm_hosts := rl_hosts r;
                             cm_params := rt_params rt; cm_slash := rl_slash r |})) (rl_routes r).
 Proof.
-  unfold create_rule. destruct (create_method_matcher (rl_methods r)) as [mm|]; [|discriminate].
+  unfold create_rule. destruct (create_method_matcher fx4 (rl_methods r)) as [mm|]; [|discriminate].
   destruct (forallb tm_ok (rl_hosts r)); [|discriminate]. simpl.
   destruct (forallb _ (rl_routes r)); [|discriminate]. simpl.
   intro H. inversion H; subst; clear H. exists mm. simpl. repeat split; reflexivity.
@@ -776,27 +825,27 @@ Qed.
 
 (** the matcher of a created route answers exactly as the documented conditions
     say, outside the guards of C03-F1, F4, F6, F7, F8, and never panics *)
-Lemma route_semantics fx6 fx7 eng r cr :
-  create_rule r = Ok cr ->
+Lemma route_semantics fx1 fx4 fx6 fx7 eng r cr :
+  create_rule fx4 r = Ok cr ->
   forall path cm, In (path, cm) (cr_routes cr) ->
   exists rt, In rt (rl_routes r) /\ path = rt_path rt /\
     forall q keys vals,
       length keys = length vals -> Forall valid_enc vals -> Forall (from_path q) vals ->
-      guard_F1 eng (rl_hosts r) q = false ->
-      guard_F4 (rl_methods r) = false ->
+      guard_F1 fx1 eng (rl_hosts r) q = false ->
+      guard_F4 fx4 (rl_methods r) = false ->
       on_params (guard_F6 fx6) (rl_slash r) q keys vals (rt_params rt) = false ->
       on_params (guard_F7 fx7) (rl_slash r) q keys vals (rt_params rt) = false ->
       on_params guard_F8 (rl_slash r) q keys vals (rt_params rt) = false ->
-      route_matches fx6 fx7 eng cm q keys vals =
+      route_matches fx1 fx6 fx7 eng cm q keys vals =
       of_bool (spec_route_ok eng r (rt_params rt) q keys vals).
 Proof.
   intros Hc path cm Hin.
-  destruct (create_rule_inv _ _ Hc) as (mm & Hm & _ & _ & _ & _ & Hr).
+  destruct (create_rule_inv _ _ _ Hc) as (mm & Hm & _ & _ & _ & _ & Hr).
   rewrite Hr in Hin. apply in_map_iff in Hin as (rt & E & Hrt). inversion E; subst path cm. clear E.
   exists rt. split; [assumption|]. split; [reflexivity|].
   intros q keys vals Hl Hv Hfp H1 H4 H6 H7 H8.
   unfold route_matches, spec_route_ok. simpl.
-  rewrite scheme_semantics, (method_list_semantics _ _ q Hm H4), (hosts_semantics _ _ _ H1).
+  rewrite scheme_semantics, (method_list_semantics _ _ _ q Hm H4), (hosts_semantics _ _ _ _ H1).
   rewrite (params_semantics fx6 fx7 eng _ q keys vals _ Hl Hv Hfp H6 H7 H8).
   destruct (spec_scheme (rl_scheme r) q); [|reflexivity].
   destruct (spec_method (rl_methods r) (q_method q)); [|reflexivity].
@@ -915,16 +964,16 @@ Definition w_route p ps := {| rt_path := p; rt_params := ps |}.
 Definition w_req m h p := {| q_method := m; q_scheme := "http"; q_host := h; q_path := p; q_rawpath := p |}.
 
 (** the matcher CreateRule builds for the only route of a one-route rule *)
-Definition only_matcher (r : ruledef) : option cmatcher :=
-  match create_rule r with
+Definition only_matcher (fx4 : bool) (r : ruledef) : option cmatcher :=
+  match create_rule fx4 r with
   | Ok cr => match cr_routes cr with [(_, cm)] => Some cm | _ => None end
   | Rejected => None
   end.
 
 (** C03-F1: hosts [a.com, b.com]; GET http://a.com/a is not matched *)
 Lemma F1_refuted :
-  exists r cm q, only_matcher r = Some cm /\ guard_F1 eng_none (rl_hosts r) q = true /\
-    route_matches true true eng_none cm q [] [] = MNo /\ spec_route_ok eng_none r [] q [] [] = true.
+  exists r cm q, only_matcher false r = Some cm /\ guard_F1 false eng_none (rl_hosts r) q = true /\
+    route_matches false true true eng_none cm q [] [] = MNo /\ spec_route_ok eng_none r [] q [] [] = true.
 Proof.
   exists (w_rule [] [w_exact "a.com"; w_exact "b.com"] [w_route "/a" []] SOff).
   eexists. exists (w_req "GET" "a.com" "/a"). vm_compute. repeat split.
@@ -932,8 +981,8 @@ Qed.
 
 (** C03-F4: methods ["!GET"]; GET /a is matched *)
 Lemma F4_refuted :
-  exists r cm q, only_matcher r = Some cm /\ guard_F4 (rl_methods r) = true /\
-    route_matches true true eng_none cm q [] [] = MYes /\ spec_route_ok eng_none r [] q [] [] = false.
+  exists r cm q, only_matcher false r = Some cm /\ guard_F4 false (rl_methods r) = true /\
+    route_matches false true true eng_none cm q [] [] = MYes /\ spec_route_ok eng_none r [] q [] [] = false.
 Proof.
   exists (w_rule ["!GET"] [] [w_route "/a" []] SOff).
   eexists. exists (w_req "GET" "h" "/a"). vm_compute. repeat split.
@@ -942,10 +991,10 @@ Qed.
 (** C03-F6 (pinned tree, before commit 72ba5d4): /file/:name with path_params name = exact "A"
     (off); GET /file/%41 is not matched *)
 Lemma F6_pinned_refuted :
-  exists r ps cm q keys vals, only_matcher r = Some cm /\ cm_params cm = ps /\
+  exists r ps cm q keys vals, only_matcher false r = Some cm /\ cm_params cm = ps /\
     length keys = length vals /\ Forall valid_enc vals /\ Forall (from_path q) vals /\
     on_params (guard_F6 false) (rl_slash r) q keys vals ps = true /\
-    route_matches false true eng_none cm q keys vals = MNo /\ spec_route_ok eng_none r ps q keys vals = true.
+    route_matches false false true eng_none cm q keys vals = MNo /\ spec_route_ok eng_none r ps q keys vals = true.
 Proof.
   exists (w_rule [] [] [w_route "/file/:name" [{| pp_name := "name"; pp_tm := w_exact "A" |}]] SOff).
   eexists. eexists. exists (w_req "GET" "h" "/file/%41"), ["name"], ["%41"].
@@ -990,12 +1039,12 @@ Qed.
     [route_semantics] and matches *)
 Lemma route_semantics_nonvacuous :
   exists r cm q keys vals,
-    only_matcher r = Some cm /\ length keys = length vals /\ Forall valid_enc vals /\
+    only_matcher false r = Some cm /\ length keys = length vals /\ Forall valid_enc vals /\
     Forall (from_path q) vals /\
-    guard_F1 eng_none (rl_hosts r) q = false /\ guard_F4 (rl_methods r) = false /\
+    guard_F1 false eng_none (rl_hosts r) q = false /\ guard_F4 false (rl_methods r) = false /\
     on_params (guard_F6 true) (rl_slash r) q keys vals (cm_params cm) = false /\
     on_params guard_F8 (rl_slash r) q keys vals (cm_params cm) = false /\
-    route_matches true true eng_none cm q keys vals = MYes.
+    route_matches false true true eng_none cm q keys vals = MYes.
 Proof.
   exists {| rl_scheme := "http"; rl_methods := ["ALL"; "!TRACE"]; rl_hosts := [w_exact "a.com"];
             rl_routes := [w_route "/file/:name" [{| pp_name := "name"; pp_tm := w_exact "[id]%2Fx" |}]];
@@ -1012,17 +1061,17 @@ Qed.
 Lemma existsb_const_false {A} (l : list A) : existsb (fun _ => false) l = false.
 Proof. induction l; [reflexivity | assumption]. Qed.
 
-Lemma method_list_semantics_full : forall ms l,
-  create_method_matcher ms = Ok l ->
+Lemma method_list_semantics_full : forall fx4 ms l,
+  create_method_matcher fx4 ms = Ok l ->
   (forall m, mem m l = true <->
      (((has_bang m = false /\ m <> "ALL" /\ In m ms) \/ (In "ALL" ms /\ In m nine)) /\ ~ In ("!" ++ m) ms)) /\
-  (forall q, guard_F4 ms = false -> method_match l q = spec_method ms (q_method q)).
+  (forall q, guard_F4 fx4 ms = false -> method_match l q = spec_method ms (q_method q)).
 Proof.
-  intros ms l H. split.
-  - intro m. rewrite (created_methods _ _ H). unfold spec_listed.
+  intros fx4 ms l H. split.
+  - intro m. rewrite (created_methods _ _ _ H). unfold spec_listed.
     rewrite andb_true_iff, orb_true_iff, !andb_true_iff, !negb_true_iff, !mem_In, mem_false, String.eqb_neq.
     tauto.
-  - intros q G. exact (method_list_semantics _ _ q H G).
+  - intros q G. exact (method_list_semantics _ _ _ q H G).
 Qed.
 
 Lemma decode_per_setting : forall sl v d,
@@ -1067,22 +1116,22 @@ Proof.
 Qed.
 
 (** the tree as it is now (C03-F7 repaired) *)
-Lemma route_matches_iff eng r cr :
-  create_rule r = Ok cr ->
+Lemma route_matches_iff fx1 fx4 eng r cr :
+  create_rule fx4 r = Ok cr ->
   forall path cm, In (path, cm) (cr_routes cr) ->
   exists rt, In rt (rl_routes r) /\ path = rt_path rt /\
     forall q keys vals,
       length keys = length vals -> Forall valid_enc vals -> Forall (from_path q) vals ->
-      guard_F1 eng (rl_hosts r) q = false ->
-      guard_F4 (rl_methods r) = false ->
+      guard_F1 fx1 eng (rl_hosts r) q = false ->
+      guard_F4 fx4 (rl_methods r) = false ->
       on_params (guard_F6 true) (rl_slash r) q keys vals (rt_params rt) = false ->
       on_params guard_F8 (rl_slash r) q keys vals (rt_params rt) = false ->
-      route_matches true true eng cm q keys vals =
+      route_matches fx1 true true eng cm q keys vals =
       of_bool (spec_scheme (rl_scheme r) q && spec_method (rl_methods r) (q_method q) &&
                spec_hosts eng (rl_hosts r) q &&
                forallb (spec_param eng (rl_slash r) q keys vals) (rt_params rt)).
 Proof.
-  intros Hc path cm Hin. destruct (route_semantics true true eng r cr Hc path cm Hin) as (rt & H1 & H2 & H3).
+  intros Hc path cm Hin. destruct (route_semantics fx1 fx4 true true eng r cr Hc path cm Hin) as (rt & H1 & H2 & H3).
   exists rt. split; [exact H1|]. split; [exact H2|].
   intros q keys vals Hl Hv Hfp G1 G4 G6 G8.
   exact (H3 q keys vals Hl Hv Hfp G1 G4 G6 (guard_F7_fixed _ _ _ _ _) G8).
